@@ -180,7 +180,7 @@ func checkTrees(trees []proto.Tree) (map[string]*treeStat, *model.Diff) {
 // walkDelta derives coverage counters from two consecutive walks.
 type walkCov struct {
 	LeafSplits, InternalSplits, RootMoves, CatalogRootMoves, TombCrossed int64
-	MaxDepth                                                            int64
+	MaxDepth                                                             int64
 }
 
 func (w *walkCov) delta(prev, cur map[string]*treeStat) {
